@@ -121,6 +121,9 @@ _world = None
 
 
 def load(extra_modules=(), fresh=False) -> World:
+    import logging
+
+    logging.disable(logging.CRITICAL)  # watchdog logs expected races at ERROR level
     """Import watchdog (from REPO_SRC) against the shims.  Idempotent per process."""
     global _world
     if _world is not None and not fresh:
